@@ -80,6 +80,7 @@ type Store struct {
 	CommitFault func(proc string, nth int, ops []Event) *Fault // nil => none
 	DelFault    func(proc string, nth int, e Event) string     // "", "err", "cas", "die"
 	IterFault   func(proc string, iter int, nth int) error     // nil => none: error returned by the nth Next of an iterator
+	GetFault    func(proc string) error                        // nil => none: error returned by a point lookup
 	commitN     int
 	delN        int
 	// LogIter makes iterator items part of the trace.
@@ -229,8 +230,30 @@ func (s *Store) GetPartitions(ctx context.Context, start, end []byte) ([]storage
 func (s *Store) Get(ctx context.Context, key []byte) ([]byte, error) {
 	s.gate("kv.get")
 	p := s.proc()
+	s.fmu.Lock()
+	gf := s.GetFault
+	s.fmu.Unlock()
+	var ferr error
+	if gf != nil {
+		ferr = gf(p)
+	}
 	s.Rec.Mu.Lock()
-	val, err := s.Inner.Get(ctx, key)
+	var val []byte
+	var err error
+	switch {
+	case ferr != nil && s.Below != nil:
+		// the engine fails: what arrives here went through the wrappers in between
+		s.Below.ArmGet(ferr)
+		val, err = s.Inner.Get(ctx, key)
+		s.Below.Disarm()
+	case ferr != nil:
+		err = ferr
+	default:
+		val, err = s.Inner.Get(ctx, key)
+	}
+	if ferr != nil {
+		s.Rec.LogLocked(Event{"e": "GetFault", "p": p})
+	}
 	if s.LogReads {
 		e := Event{"e": "Get", "p": p, "res": errClass(err)}
 		kind, rev := s.keyEv(e, key)
